@@ -115,6 +115,22 @@ def seeds_for(prop):
     return out
 
 
+def run_seed_mech(args):
+    """a seeded change with a mechanical rewrite applied on top of it: the check must still report it"""
+    seed_dir, prop, kind = args
+    from . import mechvar
+    name = '%s+%s' % (os.path.basename(seed_dir), kind)
+    ov = patch_overrides(os.path.join(seed_dir, 'patch.diff'))
+    if not ov:
+        return name, 'SKIP', ''
+    try:
+        ov2 = mechvar.overrides(kind, REPO, sources=ov)
+    except Exception as e:
+        return name, 'SKIP', 'rewrite failed: %r' % (e,)
+    rc, out = _run_variant(prop, ov2)
+    return name, ('OK' if rc == 1 else 'MISS'), (out if rc != 1 else '')
+
+
 def run_mech(args):
     """one mechanical rewrite of the whole current tree (mechvar.py): the check must exit 0 and discharge exactly the
     obligations it discharges on the unchanged tree"""
@@ -160,9 +176,12 @@ def validate(prop, jobs=16):
     m0 = re.search(r'obligations=(\d+) pass=(\d+)', out0)
     base_cnt = m0.group(0) if m0 else ''
     tasks_mech = [(k, prop, base_cnt) for k in mechvar.KINDS]
+    own_seeds = [d for d in seeds_for(prop) if os.path.basename(d).startswith(prop + '-')]
+    tasks_sm = [(d, prop, k) for d in own_seeds for k in mechvar.KINDS]
     res_cat, res_seed, res_ben, res_mut = [], [], [], []
     with cf.ProcessPoolExecutor(max_workers=jobs) as ex:
         f5 = [ex.submit(run_mech, t) for t in tasks_mech]
+        f6 = [ex.submit(run_seed_mech, t) for t in tasks_sm]
         f1 = [ex.submit(run_entry, t) for t in tasks_cat]
         f2 = [ex.submit(run_seed, t) for t in tasks_seed]
         f3 = [ex.submit(run_benign, t) for t in tasks_ben]
@@ -172,6 +191,7 @@ def validate(prop, jobs=16):
         res_ben = [f.result() for f in f3]
         res_mut = [f.result() for f in f4]
         res_mech = [f.result() for f in f5]
+        res_sm = [f.result() for f in f6]
     fixtures = []
     summ = {'mutants_breaking_run': 0, 'mutants_breaking_correct': 0, 'mutants_benign_run': 0,
             'mutants_benign_correct': 0, 'seeds_run': 0, 'seeds_detected': 0, 'skipped': 0}
@@ -223,6 +243,18 @@ def validate(prop, jobs=16):
                              'why': ('a mutant this check used to report is no longer reported' if status == 'MISS' else
                                      'a mutant triaged as behaviour-preserving raises an alarm: ' + ' | '.join(
                                          l for l in text.split('\n') if l.startswith(('VIOLATION', 'ANALYSIS')))[:300])})
+    summ['rewritten_seeds_run'] = summ['rewritten_seeds_detected'] = 0
+    for name, status, text in res_sm:
+        if status == 'SKIP':
+            summ['skipped'] += 1
+            continue
+        summ['rewritten_seeds_run'] += 1
+        if status == 'OK':
+            summ['rewritten_seeds_detected'] += 1
+        else:
+            fixtures.append({'name': 'seeded change under a mechanical rewrite %s' % name, 'ok': False,
+                             'why': 'a seeded breaking change is no longer reported once the tree is rewritten '
+                                    '(the rule depends on a spelling)'})
     summ['mechanical_rewrites_run'] = summ['mechanical_rewrites_silent_same_obligations'] = 0
     for kind, status, text in res_mech:
         if status == 'SKIP':
